@@ -61,6 +61,10 @@ func runFull(c *fw.Ctx, idx int, r *fw.Rand) {
 		c.Count("scenarios_skipped_after_hangs", 1)
 		return
 	}
+	if !portsAvailable(c) {
+		c.Inconclusive("the machine has no free port for a listener")
+		return
+	}
 	base := runtime.NumGoroutine()
 	w := newWorld(c, r, "full")
 	defer quiesce(c, base+1) // the Services notify-merger goroutine lives forever by design
@@ -86,6 +90,11 @@ func runFull(c *fw.Ctx, idx int, r *fw.Rand) {
 	if backend == "file" {
 		conf.Storage.Type = "file"
 		conf.Storage.Params = map[string]string{"path": c.TempDir("c19fs")}
+	} else if (idx/4)%2 == 1 {
+		// the memory store with a (generous) size limit runs its enforcer goroutine, which must
+		// keep serving the sessions that finish after the shutdown request
+		conf.Storage.Params = map[string]string{"maxkb": "65536"}
+		w.plan["maxkb"] = 65536
 	}
 	web.Router = mux.NewRouter()
 	svc, err := server.FullAssembly(conf)
